@@ -622,6 +622,15 @@ pub fn hostile(a: &Alphabet) -> Vec<String> {
             }
         }
     }
+    // long single lines of multi-byte characters, alone and behind an opening literal: whatever consumes
+    // arbitrary text (comments, quoted strings, skip-until) gets far into a line before it fails, and
+    // byte arithmetic on such a line (error messages, columns) lands inside characters
+    for run in ["€".repeat(30), format!("{}😀", "é".repeat(70)), format!("{}a", "😀".repeat(20))] {
+        v.push(run.clone());
+        for t in a.tokens.iter().take(6) {
+            v.push(format!("{}{}", t, run));
+        }
+    }
     v
 }
 
@@ -644,6 +653,19 @@ pub fn inputs_for(g: &Grammar, rule: &str, a: &Alphabet, rng: &mut Rng, sentence
     for depth in [24usize, 60] {
         let s = sentence_with_budget(g, rule, rng, depth, 6000);
         if s.len() <= 400 {
+            // ... and the same with a defect near the end (a failure far into a long line)
+            if s.chars().count() > 40 {
+                let chars: Vec<char> = s.chars().collect();
+                let cut: String = chars[..chars.len() - 1].iter().collect();
+                push(cut, &mut order);
+                let k = chars.len() * 3 / 4;
+                let mut del = chars.clone();
+                del.remove(k);
+                push(del.into_iter().collect(), &mut order);
+                let mut rep = chars.clone();
+                rep[k] = '€';
+                push(rep.into_iter().collect(), &mut order);
+            }
             push(s, &mut order);
         }
     }
